@@ -160,7 +160,10 @@ def merge_rules(R, pfx="C07"):
         R.inst(pfx + ".reg.store", "K6 flows-to", "persisted register = result of register_validation", len(vals), ok)
         R.gate(pfx + ".reg.store.gate", vsr, CallSink(PUT), [[CallGuard([PV + "register_validation"], ("Ok", "Some"), "register_validation is Ok(Some(_))")]],
                descr="register stored only when validation produced an update")
-
+    # the local copy those comparisons read includes accepted writes still in flight (NodeRecordStore::get serves the cache
+    # without waiting for the index)
+    from props.C01 import get_serves_unsettled
+    get_serves_unsettled(R, pfx + ".local.unsettled")
 
 
 def run(R):
